@@ -243,11 +243,12 @@ func (w *World) OpaqueTokenID(token string) (string, string, bool) {
 	if err != nil {
 		return "", "", false
 	}
-	parts := strings.Split(plain, ":")
-	if len(parts) != 2 {
+	// "<token id>:<subject>": token ids never contain a colon, a subject may
+	id, sub, ok := strings.Cut(plain, ":")
+	if !ok {
 		return "", "", false
 	}
-	return parts[0], parts[1], true
+	return id, sub, true
 }
 
 // TokenID resolves an access token string (opaque or JWT) to the stored token id.
